@@ -62,7 +62,15 @@ pub fn same_ranking(a: &Ranking, b: &Ranking, limit: usize, rel: f64) -> bool {
       e += 1;
     }
     let cut = e == a.len() && a.len() >= limit;
-    if !cut {
+    // exact ties are resolved deterministically (segment, then document order): when all scores
+    // of the run are bit-equal in both lists the ids must agree position by position, also in
+    // a run that is cut by the limit; only genuinely near-equal scores may swap
+    let exact = a[s..e].iter().all(|h| h.1 == a[s].1) && b[s..e].iter().all(|h| h.1 == b[s].1);
+    if exact {
+      if (s..e).any(|i| a[i].0 != b[i].0) {
+        return false;
+      }
+    } else if !cut {
       let mut x: Vec<&String> = a[s..e].iter().map(|h| &h.0).collect();
       let mut y: Vec<&String> = b[s..e].iter().map(|h| &h.0).collect();
       x.sort();
@@ -70,9 +78,6 @@ pub fn same_ranking(a: &Ranking, b: &Ranking, limit: usize, rel: f64) -> bool {
       if x != y {
         return false;
       }
-    } else if e - s == 1 && a[s].0 != b[s].0 {
-      // a single last hit: it may only differ when another document ties with it, which we
-      // cannot see here; accept (scores are equal within tolerance)
     }
     s = e;
   }
@@ -288,6 +293,10 @@ pub fn gen_doc(rng: &mut Rng, id: String, vocab: usize, dense: bool) -> Value {
   if rng.chance(4, 5) {
     d.insert("p".into(), json!((rng.below(400) as f64) / 8.0));
   }
+  if rng.chance(4, 5) {
+    // small divisor for scripts: 0 (and missing) make `x / m` yield no value
+    d.insert("m".into(), json!(rng.below(3) as i64));
+  }
   if rng.chance(1, 2) {
     d.insert("tag".into(), json!(TAGS[rng.below(TAGS.len())]));
   }
@@ -396,14 +405,17 @@ fn hook_q(rng: &mut Rng, kind: &str, vocab: usize) -> Value {
       if rng.chance(1, 5) {
         q["max_boost"] = json!(20.0);
       }
-      if rng.chance(1, 6) {
-        q["min_score"] = json!(0.5);
+      if rng.chance(1, 2) {
+        // a threshold inside the score range: part of the candidates is dropped by the hook
+        q["min_score"] = json!(*rng.pick(&[0.5, 2.0, 4.0, 8.0, 16.0]));
       }
       with_boost(q, boost(rng))
     }
     "script_score" => {
       let e = json!(["*", "_score", gen_expr(rng, 2)]);
       let e = if rng.chance(1, 2) { e } else { json!(["+", e, gen_expr(rng, 1)]) };
+      // division by a field that is 0 or missing for some documents: the script yields no value
+      let e = if rng.chance(1, 3) { json!(["/", e, "m"]) } else { e };
       with_boost(json!({"type": "script_score", "query": inner, "expr": e}), boost(rng))
     }
     _ => {
@@ -421,6 +433,72 @@ fn hook_q(rng: &mut Rng, kind: &str, vocab: usize) -> Value {
   }
 }
 
+/// "blocky": one long posting list per query word (every document of the segment contains the
+/// word, so posting index = document ordinal), term frequency 1 except for a few spikes placed at
+/// block starts (`j*B`), block ends (`j*B - 1`) and random positions of the effective block size
+/// `B` (`bmw_block_size`, or 128 = the block size of the metadata stored in the index when the
+/// request does not set one); all documents have the same length; small limits
+pub fn gen_blocky(rng: &mut Rng, i: usize) -> Value {
+  let kind = ["plain", "boosted", "dis_max", "plain"][(i / 10) % 4];
+  let bs: Value = if rng.chance(1, 2) { Value::Null } else { json!(*rng.pick(&[2, 3, 8, 16, 32, 64, 100])) };
+  let b = bs.as_u64().unwrap_or(128) as usize;
+  let nblocks = 2 + rng.below(4);
+  let n = (b * nblocks + rng.below(b)).clamp(40, 700);
+  let total = 24usize;
+  let mut tf_a = vec![1usize; n];
+  let mut tf_b: Vec<usize> = (0..n).map(|_| rng.below(2)).collect();
+  let nspikes = 3 + rng.below(6);
+  let mut height = 2 + rng.below(3);
+  for _ in 0..nspikes {
+    let j = 1 + rng.below(n / b);
+    let pos = match rng.below(4) {
+      0 | 1 => j * b,
+      2 => j * b - 1,
+      _ => rng.below(n),
+    }
+    .min(n - 1);
+    // mostly increasing heights: later spikes have to beat a heap that is already full
+    height = (height + rng.below(4)).min(18);
+    if rng.chance(1, 4) {
+      tf_b[pos] = (height / 2).max(1);
+    }
+    tf_a[pos] = height;
+  }
+  // early good documents so that the heap is full before the first block boundary
+  for k in 0..1 + rng.below(3) {
+    tf_a[k.min(n - 1)] = 2 + rng.below(2);
+  }
+  let docs: Vec<Value> = (0..n)
+    .map(|d| {
+      let mut body: Vec<&str> = Vec::new();
+      body.extend(std::iter::repeat("ta").take(tf_a[d]));
+      body.extend(std::iter::repeat("tb").take(tf_b[d].min(total - tf_a[d])));
+      while body.len() < total {
+        body.push("zz");
+      }
+      json!({"_id": format!("s0d{d:04}"), "body": body.join(" ")})
+    })
+    .collect();
+  let mut segments = vec![Value::Array(docs)];
+  if rng.chance(1, 3) {
+    let extra: Vec<Value> = (0..5 + rng.below(20)).map(|d| gen_doc(rng, format!("s1d{d:04}"), 3, false)).collect();
+    segments.push(Value::Array(extra));
+  }
+  let term = |w: &str| json!({"type": "term", "field": "body", "value": w});
+  let query = match kind {
+    "dis_max" => json!({"type": "dis_max", "queries": [term("ta"), term("tb")], "tie_breaker": *rng.pick(&[0.0, 0.3, 1.0])}),
+    "boosted" => json!({"type": "bool", "should": [{"type": "term", "field": "body", "value": "ta", "boost": 2.0}, term("tb")]}),
+    _ => {
+      if rng.chance(1, 2) {
+        term("ta")
+      } else {
+        json!({"type": "query_string", "query": "ta tb", "fields": ["body"]})
+      }
+    }
+  };
+  json!({"class": "blocky", "kind": kind, "segments": segments, "deletes": [], "query": query, "limit": 1 + rng.below(3), "bmw_block_size": bs})
+}
+
 pub const KINDS: [&str; 6] = ["plain", "boosted", "dis_max", "function_score", "script_score", "rank_feature"];
 
 fn observed(imp: &[(&str, Option<Ranking>)]) -> Value {
@@ -436,7 +514,7 @@ impl Prop for C09 {
     "C09"
   }
   fn rule(&self) -> &'static str {
-    "case = (1-3 segments of random documents over a 3-8 word vocabulary with heavy-tailed term frequencies, optional deletes, one scored query of kind plain|boosted|dis_max|function_score|script_score|rank_feature (in a quarter of the multi-term queries the same term is scored by two clauses), limit 1..50, bmw_block_size 1..300 or default); size classes tiny (8-60 docs, block size 1-3, limit 1-5), medium (60-250 docs), long (posting lists of 400-1200 entries); every case runs execution=bm25, wand and bmw on one reader; non-trivial = some segment has more accepted candidates than limit+1 (the heap fills and pruning decisions are taken); distinct = distinct case JSON"
+    "case = (1-3 segments of random documents over a 3-8 word vocabulary with heavy-tailed term frequencies, optional deletes, one scored query of kind plain|boosted|dis_max|function_score|script_score|rank_feature (in a quarter of the multi-term queries the same term is scored by two clauses), limit 1..50, bmw_block_size 1..300 or default); size classes tiny (8-60 docs, block size 1-3, limit 1-5 or above the corpus size), ties (copies of 2-4 template documents: many exactly equal scores), blocky (one posting list of 40-700 entries with tf spikes at block starts/ends of the effective block size, default or explicit bmw_block_size, limit 1-3), medium (60-250 docs), long (posting lists of 400-1200 entries); every case runs execution=bm25, wand and bmw on one reader; non-trivial = some segment has more accepted candidates than limit+1 (the heap fills and pruning decisions are taken), or the limit exceeds the corpus and a score hook is active (strategies must agree exactly); distinct = distinct case JSON"
   }
   fn count(&self, tier: Tier) -> usize {
     tier.pick(300, 20000)
@@ -445,8 +523,13 @@ impl Prop for C09 {
     let class = match i % 10 {
       0 => "long",
       1 | 2 | 3 => "medium",
+      4 => "ties",
+      5 => "blocky",
       _ => "tiny",
     };
+    if class == "blocky" {
+      return gen_blocky(rng, i);
+    }
     let kind = KINDS[(i / 2) % KINDS.len()];
     let (nseg, ndocs, vocab) = match class {
       "long" => (1 + rng.below(2), 400 + rng.below(801), 4 + rng.below(3)),
@@ -458,10 +541,19 @@ impl Prop for C09 {
     for s in 0..nseg {
       let n = if s + 1 == nseg { ndocs - (ndocs / nseg) * s } else { ndocs / nseg };
       let mut docs = Vec::new();
+      // "ties": the documents of a segment are copies of a few templates, so that many
+      // documents have exactly the same score (more than fit into the limit+1 heap)
+      let templates: Vec<Value> = if class == "ties" { (0..2 + rng.below(3)).map(|_| gen_doc(rng, String::new(), vocab, false)).collect() } else { Vec::new() };
       for d in 0..n.max(1) {
         let id = format!("s{s}d{d:04}");
         ids.push(id.clone());
-        docs.push(gen_doc(rng, id, vocab, class == "long"));
+        if class == "ties" {
+          let mut t = rng.pick(&templates).clone();
+          t["_id"] = json!(id);
+          docs.push(t);
+        } else {
+          docs.push(gen_doc(rng, id, vocab, class == "long"));
+        }
       }
       segments.push(Value::Array(docs));
     }
@@ -482,7 +574,10 @@ impl Prop for C09 {
       k => hook_q(rng, k, vocab),
     };
     let (limit, bs) = match class {
-      "tiny" => (*rng.pick(&[1, 1, 2, 2, 3, 4, 5]), json!(1 + rng.below(3))),
+      // every fourth small case has a limit above the corpus size: the heap never fills, no
+      // pruning decision is taken, and the strategies must agree whatever the score hook does
+      "tiny" | "ties" if rng.chance(1, 4) => (*rng.pick(&[64, 100, 200]), if rng.chance(1, 3) { Value::Null } else { json!(1 + rng.below(3)) }),
+      "tiny" | "ties" => (*rng.pick(&[1, 1, 2, 2, 3, 4, 5]), if class == "ties" && rng.chance(1, 3) { Value::Null } else { json!(1 + rng.below(3)) }),
       _ => (1 + rng.below(50), if rng.chance(1, 6) { Value::Null } else { json!(1 + rng.below(300)) }),
     };
     json!({"class": class, "kind": kind, "segments": segments, "deletes": deletes, "query": query, "limit": limit, "bmw_block_size": bs})
@@ -554,7 +649,8 @@ impl Prop for C09 {
       ),
       Err(e) => json!({"ok": false, "error": e}),
     };
-    let nontrivial = model["candidates"].as_u64().unwrap_or(0) as usize > limit + 1 && b.len() >= limit.min(2);
+    let all_docs: usize = segments.iter().map(|sg| sg.as_array().map(|a| a.len()).unwrap_or(0)).sum();
+    let nontrivial = (model["candidates"].as_u64().unwrap_or(0) as usize > limit + 1 && b.len() >= limit.min(2)) || (limit >= all_docs && hook && b.len() >= 2);
     s.case(case, nontrivial);
     if model["max_postings"].as_u64().unwrap_or(0) >= 400 {
       s.count("posting_list_ge_400");
@@ -569,7 +665,15 @@ impl Prop for C09 {
     // the same strategy is a different violation.
     let wand_ok = same_ranking(&w, &b, limit, 2e-5);
     let bmw_ok = same_ranking(&m, &b, limit, 2e-5);
-    if !wand_ok || !bmw_ok {
+    let total_docs: usize = segments.iter().map(|sg| sg.as_array().map(|a| a.len()).unwrap_or(0)).sum();
+    if limit >= total_docs {
+      s.count("limit_ge_corpus");
+    }
+    if (!wand_ok || !bmw_ok) && limit >= total_docs {
+      // the per-segment heap (limit+1) can never fill: the threshold stays 0 and nothing may
+      // be pruned, so even the recorded pruning defects cannot explain a difference
+      s.fail("prune.heap-never-full", "wand/bmw differ from bm25 although the limit exceeds the number of documents (no pruning decision can be taken)", case, observed(&imp));
+    } else if !wand_ok || !bmw_ok {
       let obs = observed(&imp);
       let model_ok = model["ok"] == json!(true) && model["negative"] != json!(true);
       let explained = |ex: &str, r: &Ranking| -> bool {
